@@ -57,6 +57,13 @@ var poolKeyOnly = []LeafDef{
 	{"/peer[name=k1][zone=k2]/zone", []string{"k2"}, "string"},
 }
 
+// poolImplicit: a leaf whose must refers to a default below a non-presence container of another branch (/sys/log/level,
+// default info; used in pools that never set it): validators enter /sys/log whether or not anybody configured something
+// there, an entry made for that purpose must not show up in what the device gets
+var poolImplicit = []LeafDef{
+	{"/cons/mst/k", []string{"kv", "kw"}, "string"},
+}
+
 // poolSlashKeys: list entries whose key values contain the path separator, one a "/"-prefix of the other (a port and its
 // breakout ports): deleted together they are siblings, not ancestor and descendant.
 var poolSlashKeys = []LeafDef{
@@ -123,6 +130,8 @@ func poolFor(name string) []LeafDef {
 		switch part {
 		case "base":
 			p = append(p, poolBase...)
+		case "implicit":
+			p = append(p, poolImplicit...)
 		case "mk":
 			p = append(p, poolMultiKey...)
 		case "extra":
